@@ -126,6 +126,9 @@ def worker(case: Dict[str, Any]) -> CaseResult:
                     count("args_unbuildable_c06_concern")  # the input model refused a schema-valid value: C06 decides that
                     continue
                 expected = json.loads(json.dumps(strip_omit(tree)))
+                if is_sub and uploads and made_uploads:
+                    count("upload_in_subscription_skipped")  # the multipart request specification is an HTTP matter; a file in a websocket frame has no defined meaning
+                    continue
                 world = World(schema_ref, seed=case["seed"] * 1000 + si, mode="full", rotation=si)
                 server.world = world
                 n0 = len(server.captured)
